@@ -510,10 +510,22 @@ func (fx *loopFx) callEffects(call *ssa.CallCommon, subst map[ssa.Value]ssa.Valu
 		case "delete":
 			fx.mapTarget(call.Args[0], subst)
 		case "append", "copy":
-			if b.Name() == "append" && fx.loopFreshSlice(call.Args[0], map[ssa.Value]bool{}) {
-				// appending to a slice whose backing array can only have been allocated inside this
-				// loop (it starts as nil at every entry): no memory visible at the loop head changes
-				return
+			if b.Name() == "append" {
+				// appending writes into the slice's own backing array (or a new one). If every array the
+				// slice can have is either allocated inside the loop (invisible at the loop head) or a
+				// slice made before the loop in this function, only those rows change.
+				if bases, ok := fx.sliceBases(call.Args[0], map[ssa.Value]bool{}); ok {
+					if stt, isSlice := call.Args[0].Type().Underlying().(*types.Slice); isSlice {
+						for _, base := range bases {
+							for _, lf := range leavesOf(stt.Elem()) {
+								name := arrName("M", elemKey(stt.Elem()), lf.Path, lf.Sort)
+								arr := c.heapGet(st.heap, name)
+								c.heapSet(st, name, sto(arr, base, c.fresh("havoc.row", "(Array Int "+lf.Sort+")")))
+							}
+						}
+					}
+					return
+				}
 			}
 			if stt, ok := call.Args[0].Type().Underlying().(*types.Slice); ok {
 				for _, lf := range leavesOf(stt.Elem()) {
